@@ -44,7 +44,7 @@ Fixpoint encode (v : pv) : bytes :=
 
 (* ---- decoding ---- *)
 
-Inductive derr := EEmpty | EInvalidLength | EInvalidUtf8 | EUnknownType (t : N).
+Inductive derr := EEmpty | EInvalidLength | EInvalidUtf8 | EUnknownType (t : N) | ETooDeep.
 
 Inductive res (A : Type) :=
 | Ok (a : A)
@@ -147,8 +147,12 @@ Definition dec_lenpref (b : bytes) (k : bytes -> N -> res (pv * N)) : res (pv * 
     end
   end.
 
-(* decode_recursive; `fuel` bounds the nesting depth and the loop lengths *)
-Fixpoint dec (fuel : nat) (b : bytes) : res (pv * N) :=
+(* `depth >= MAX_PROPERTY_NESTING` (only when the code has the limit: Gen/Consts.v) *)
+Definition too_deep (d : N) : bool := (pv_nesting_limited =? 1) && (pv_max_nesting <=? d).
+
+(* decode_recursive(bytes, depth); `fuel` bounds the recursion and the loop lengths;
+   `d` = number of lists/maps the value sits in *)
+Fixpoint dec (fuel : nat) (d : N) (b : bytes) : res (pv * N) :=
   match fuel with
   | O => NoFuel
   | S f =>
@@ -176,22 +180,24 @@ Fixpoint dec (fuel : nat) (b : bytes) : res (pv * N) :=
         dec_lenpref b (fun s c => Ok (PBlob s, c))
       else if ty =? pv_tag_list then
         if len b <? 5 then Err EInvalidLength else
+        if too_deep d then Err ETooDeep else
         match sub b 1 4 with
         | None => Panic
-        | Some l4 => list_loop (dec f) fuel (unle l4) b 5 []
+        | Some l4 => list_loop (dec f (d + 1)) fuel (unle l4) b 5 []
         end
       else if ty =? pv_tag_map then
         if len b <? 5 then Err EInvalidLength else
+        if too_deep d then Err ETooDeep else
         match sub b 1 4 with
         | None => Panic
-        | Some l4 => map_loop (dec f) fuel (unle l4) b 5 []
+        | Some l4 => map_loop (dec f (d + 1)) fuel (unle l4) b 5 []
         end
       else Err (EUnknownType ty)
     end
   end.
 
 (* enough fuel for every input (theorem dec_fuel_enough) *)
-Definition dec_top (b : bytes) : res (pv * N) := dec (S (length b)) b.
+Definition dec_top (b : bytes) : res (pv * N) := dec (S (length b)) 0 b.
 
 (* the public PropertyValue::decode: trailing bytes are ignored *)
 Definition decode (b : bytes) : res pv :=
@@ -265,7 +271,7 @@ Fixpoint map_cost (rec : bytes -> res (pv * N)) (cost : bytes -> N * N) (k : nat
     end
   end.
 
-Fixpoint cost (fuel : nat) (b : bytes) : N * N :=
+Fixpoint cost (fuel : nat) (d : N) (b : bytes) : N * N :=
   match fuel with
   | O => (0, 0)
   | S f =>
@@ -274,26 +280,28 @@ Fixpoint cost (fuel : nat) (b : bytes) : N * N :=
     | ty :: _ =>
       if ty =? pv_tag_list then
         if len b <? 5 then (0, 1) else
+        if too_deep d then (0, 1) else
         match sub b 1 4 with
         | None => (0, 1)
         | Some l4 =>
-          let r := list_cost (dec f) (cost f) fuel (unle l4) b 5 (0, 0) in
+          let r := list_cost (dec f (d + 1)) (cost f (d + 1)) fuel (unle l4) b 5 (0, 0) in
           (list_request (unle l4) (len b - 5) + fst r, 1 + snd r)
         end
       else if ty =? pv_tag_map then
         if len b <? 5 then (0, 1) else
+        if too_deep d then (0, 1) else
         match sub b 1 4 with
         | None => (0, 1)
         | Some l4 =>
-          let r := map_cost (dec f) (cost f) fuel (unle l4) b 5 (0, 0) in
+          let r := map_cost (dec f (d + 1)) (cost f (d + 1)) fuel (unle l4) b 5 (0, 0) in
           (fst r, 1 + snd r)
         end
       else (0, 1)
     end
   end.
 
-Definition alloc_request (b : bytes) : N := fst (cost (S (length b)) b).
-Definition depth (b : bytes) : N := snd (cost (S (length b)) b).
+Definition alloc_request (b : bytes) : N := fst (cost (S (length b)) 0 b).
+Definition depth (b : bytes) : N := snd (cost (S (length b)) 0 b).
 
 (* ---- well-formed values (what the encoder accepts without panicking and
         what Rust's types can hold) ---- *)
@@ -322,6 +330,18 @@ Fixpoint wf (v : pv) : bool :=
       (len m <? two32') && strictly_sorted (map fst m) &&
       forallb (fun kv => match kv with (k, x) => (len k <? two32') && utf8_valid k && wf x end) m
   end.
+
+(* number of nested lists/maps (a scalar: 0, [1]: 1, [[1]]: 2) — PropertyValue::exceeds_nesting *)
+Fixpoint cdepth (v : pv) : N :=
+  match v with
+  | PList l => 1 + fold_right (fun x acc => N.max (cdepth x) acc) 0 l
+  | PMap m => 1 + fold_right (fun kv acc => match kv with (_, x) => N.max (cdepth x) acc end) 0 m
+  | _ => 0
+  end.
+(* values the engine accepts: well-formed and, when the code has the limit, nested at most
+   MAX_PROPERTY_NESTING deep *)
+Definition nesting_ok (v : pv) : bool := negb (pv_nesting_limited =? 1) || (cdepth v <=? pv_max_nesting).
+Definition wfd (v : pv) : bool := wf v && nesting_ok v.
 
 (* structural equality with floats compared as bit patterns (for Corr) *)
 Fixpoint pv_eqb (a b : pv) : bool :=
